@@ -32,7 +32,11 @@ def graph_from_tucan(tucan: str) -> nx.Graph:
     """
     parser = _prepare_parser(tucan)
     tree = parser.tucan()
-    listener = _walk_tree(tree)
+    try:
+        listener = _walk_tree(tree)
+    except ValueError as e:
+        # e.g. a numeric literal too long for int() (the interpreter limits str -> int conversion)
+        raise TucanParserException(f"Invalid number: {e}") from e
     return listener.to_graph()
 
 
